@@ -686,7 +686,7 @@ fn run_staged<S: SignedHeaderRequirements>(
         }
     };
     oracle.sha_hex(&creq_bytes);
-    evs.push(stage_ok("StageAuth", json!({"render": if crate::leak::active() { format!("{:?}", auth) } else { String::new() }, "inst": instant_json(auth.request_timestamp()), "creq": jbytes(&creq_bytes)})));
+    evs.push(stage_ok("StageAuth", json!({"render": if crate::leak::active() { format!("{:?}", auth) } else { String::new() }, "inst": instant_json(auth.request_timestamp().with_timezone(&Utc)), "creq": jbytes(&creq_bytes)})));
     match guarded(|| auth.prevalidate(&region, &service, now, Duration::minutes(15))) {
         Err(p) => {
             evs.push(stage_err("StagePre", Err(&p), json!({})));
@@ -702,7 +702,7 @@ fn run_staged<S: SignedHeaderRequirements>(
         Err(p) => evs.push(stage_err("StageSts", Err(&p), json!({"sts": []}))),
         Ok(sts) => {
             // what the correct signature would be under the provider's key for this request
-            let d = auth.request_timestamp().date_naive().format("%Y%m%d").to_string();
+            let d = auth.request_timestamp().with_timezone(&Utc).date_naive().format("%Y%m%d").to_string();
             oracle.sig_hex(&script.secret, d.as_bytes(), region.as_bytes(), service.as_bytes(), &sts);
             evs.push(stage_ok("StageSts", json!({"sts": jbytes(&sts)})));
         }
